@@ -8,6 +8,7 @@ period boundaries), everything the service does to its recording pool / children
 `trio.current_time()`.  Intervals and times are dyadic, so virtual-time arithmetic is exact."""
 import ast
 import os
+import signal
 from fractions import Fraction as F
 
 from . import c08
@@ -318,6 +319,16 @@ def gen_cases(rng, n):
 
 
 # ------------------------------------------------------------------ implementation
+HANG_SECONDS = 20       # wall-clock watchdog per case (a healthy case takes milliseconds)
+
+
+class _Hang(BaseException):
+    pass
+
+
+_hangs = []
+
+
 class _Clock:
     def __init__(self):
         self.on = False
@@ -380,7 +391,8 @@ def run_impl(case):
         service, _info = c08.build(case["ctl"], pool, log)
     elif svc == "buffer":
         from cobald.decorator.buffer import Buffer
-        pool = c08._mk_pool(log, case["pool"], touch=log.touch)
+        # the Buffer's observable effect on its target is a CHANGE of demand (re-writing the same value is not one)
+        pool = c08._mk_pool(log, case["pool"], touch=log.touch, changes_only=True)
         service = Buffer(pool, window=num(case["itv"]))
     elif svc == "factory":
         from cobald.composite.factory import FactoryPool
@@ -433,14 +445,32 @@ def run_impl(case):
                 await trio.sleep_until(float(un(case["T"])))
                 nursery.cancel_scope.cancel()
         except BaseException as e:
-            if isinstance(e, (KeyboardInterrupt, SystemExit, trio.Cancelled)):
+            if isinstance(e, (KeyboardInterrupt, SystemExit, trio.Cancelled, _Hang)):
                 raise
             res["raised"] = [_exc_kind(e), _tq(trio.current_time())]
         clock.on = False
 
     for t, _ in case["env"]:
         assert F(float(un(t))) == un(t), "time not dyadic"
-    trio.run(main, clock=trio.testing.MockClock(autojump_threshold=0))
+
+    fired = []
+
+    def on_alarm(signum, frame):
+        fired.append(1)
+        raise _Hang()
+    old = signal.signal(signal.SIGALRM, on_alarm)
+    signal.setitimer(signal.ITIMER_REAL, HANG_SECONDS if not _hangs else 3)
+    try:
+        trio.run(main, clock=trio.testing.MockClock(autojump_threshold=0))
+    except BaseException:
+        if not fired:
+            raise
+        # virtual time stopped advancing: an iteration without (or with a zero) sleep
+        _hangs.append(1)
+        res["raised"] = ["hang", "-1/1"]
+    finally:
+        signal.setitimer(signal.ITIMER_REAL, 0)
+        signal.signal(signal.SIGALRM, old)
     recs = _records(log)
     if res["raised"]:       # what happened in the wake that raised is reported apart (the model has no record for it)
         res["at_raise"] = [r for r in recs if r[0] == res["raised"][1]]
